@@ -215,3 +215,70 @@ func ZZ_C11_slowConsumerBurst() {
 	}
 	cancel()
 }
+
+func init() { zz.Register("ZZ_C11_reconnect", ZZ_C11_reconnect) }
+
+// zzHookStore lets the environment act right after the stream registered its live callback.
+type zzHookStore struct {
+	CallbackStore
+	afterAdd func()
+}
+
+func (s *zzHookStore) AddCallback(id string, fn CallbackFunc) {
+	s.CallbackStore.AddCallback(id, fn)
+	if s.afterAdd != nil {
+		f := s.afterAdd
+		s.afterAdd = nil
+		f()
+	}
+}
+
+// ZZ_C11_reconnect: a client reconnects: a second stream from the same remote address (same callback id) while
+// the first one is still registered. The old connection may have been closed before, may stay open, or may
+// die right after the new stream registered (before the old stream learnt that it was replaced). In every
+// case the NEW stream delivers every stored round from its start round, once, in order; the old stream ends.
+func ZZ_C11_reconnect() {
+	bg := context.Background()
+	base := memdb.NewStore(100)
+	cbs := NewCallbackStore(zzfake.Logger(), base)
+	mk := func(r uint64) *common.Beacon {
+		return &common.Beacon{Round: r, Signature: []byte{byte(r), 0xee}, PreviousSig: []byte{byte(r - 1)}}
+	}
+	for r := uint64(0); r < 3; r++ {
+		_ = cbs.Put(bg, mk(r))
+	}
+	req := &proto.SyncRequest{FromRound: 1, Metadata: &proto.Metadata{BeaconID: "default"}}
+	ctxA, cancelA := context.WithCancel(bg)
+	stA := &zzStream{ctx: ctxA}
+	doneA := false
+	go func() {
+		_ = SyncChain(zzfake.Logger(), cbs, req, stA)
+		doneA = true
+	}()
+	zz.Quiesce()
+	order := zz.Choose("old_connection", 3)
+	hook := &zzHookStore{CallbackStore: cbs}
+	switch order {
+	case 0: // closed before the client reconnects
+		cancelA()
+		zz.Quiesce()
+	case 2: // dies right after the new stream registered
+		hook.afterAdd = cancelA
+	}
+	ctxB, cancelB := context.WithCancel(bg)
+	stB := &zzStream{ctx: ctxB}
+	go func() { _ = SyncChain(zzfake.Logger(), hook, req, stB) }()
+	zz.Quiesce()
+	for r := uint64(3); r < 5; r++ {
+		_ = cbs.Put(bg, mk(r))
+		zz.Quiesce()
+	}
+	zz.Assert("old_stream_ends", doneA)
+	zz.Assert("new_stream_delivers_every_stored_round", len(stB.sent) == 4)
+	for i, p := range stB.sent {
+		zz.Assert("new_stream_in_order_from_its_start", p.Round == uint64(1+i))
+	}
+	cancelA()
+	cancelB()
+	zz.Quiesce()
+}
